@@ -8,7 +8,8 @@ ROOT = os.path.dirname(os.path.dirname(os.path.abspath(__file__)))
 tier = sys.argv[1] if len(sys.argv) > 1 else "quick"
 ids = sys.argv[2:] or sorted(os.listdir(os.path.join(ROOT, "seeded")))
 EXTRA = {"C06-B": ["C03", "C13"], "C13-A": ["C04"], "C17-B": ["C04", "C13"], "C01-A": [], "C04-A": ["C13", "C17"],
-         "C17-C": ["C03", "C13"], "C03-D": ["C15"], "C13-C": ["C03"], "C02-C": ["C12", "C18"], "C07-D": ["C12"], "C17-D": ["C16"]}
+         "C17-C": ["C03", "C13"], "C03-D": ["C15"], "C13-C": ["C03"], "C02-C": ["C12", "C18"], "C07-D": ["C12"], "C17-D": ["C16"],
+         "C03-E": ["C04"], "C03-F": ["C04"], "C17-F": ["C15"], "C06-E": ["C04"], "C07-E": ["C08"], "C07-F": ["C12"], "C04-F": ["C03", "C13"], "C09-F": []}
 
 def one(sid):
     prop = sid.split("-")[0]
